@@ -683,6 +683,27 @@ pub fn check(c: &SeqCase, ctx: &mut CaseCtx) -> Result<(), Fail> {
         ctx.fail("seq:final:block-level-verify", m)?;
     }
     run.verify_ok(ctx, "final")?;
+    // history(key) = the transactions naming that key, in chain order
+    for i in 0..5 {
+        let key = format!("k{i}");
+        let want: Vec<(u64, Transaction)> = blocks
+            .iter()
+            .flat_map(|b| b.transactions.iter().map(move |t| (b.header.height, t)))
+            .filter(|(_, t)| match t {
+                Transaction::Put { key: k, .. }
+                | Transaction::Delete { key: k }
+                | Transaction::CompareAndSwap { key: k, .. }
+                | Transaction::Embed { key: k, .. } => *k == key,
+                _ => false,
+            })
+            .map(|(h, t)| (h, t.clone()))
+            .collect();
+        match run.node.chain.history(&key) {
+            Ok(got) if got == want => {},
+            Ok(got) => ctx.fail("seq:final:history", format!("history({key}) has {} entries, the blocks hold {}", got.len(), want.len()))?,
+            Err(e) => ctx.fail("seq:final:history", format!("history({key}) failed: {e}"))?,
+        }
+    }
     ctx.label(format!("height:{}", run.node.chain.height().min(6)));
     Ok(())
 }
